@@ -54,6 +54,21 @@ def train(data, rules_path, multiword_data=None, **opts):
     def bsc(section_list):
         res.segmented.append((cur['pw'], [tuple(x) for x in section_list]))
         return orig_bsc(section_list)
+    # what the e-mail / website detectors report per password (the items behind Emails/ and Websites/)
+    res.found = {k: Counter() for k in ('emails', 'providers', 'urls', 'hosts', 'prefixes')}
+    res.found_events = []
+    orig_ed, orig_wd = ppp.email_detection, ppp.website_detection
+    def email_detection(section_list):
+        out = orig_ed(section_list)
+        res.found['emails'].update(out[0]); res.found['providers'].update(out[1])
+        res.found_events.append(('E', cur['pw'], list(out[0]), list(out[1]), [tuple(x) for x in section_list]))
+        return out
+    def website_detection(section_list):
+        out = orig_wd(section_list)
+        res.found['urls'].update(out[0]); res.found['hosts'].update(out[1]); res.found['prefixes'].update(str(x) for x in out[2])      # 'no prefix' is the item None, written as the text None
+        res.found_events.append(('W', cur['pw'], list(out[0]), list(out[1]), list(out[2]), [tuple(x) for x in section_list]))
+        return out
+    ppp.email_detection, ppp.website_detection = email_detection, website_detection
     orig_read = tfi.TrainerFileInput.read_password
     def read_password(self):
         rec = {'yielded': [], 'prefixcount': self.prefixcount, 'obj': self}
@@ -85,6 +100,7 @@ def train(data, rules_path, multiword_data=None, **opts):
                     res.ok = False
     finally:
         ppp.base_structure_creation = orig_bsc
+        ppp.email_detection, ppp.website_detection = orig_ed, orig_wd
         ppp.PCFGPasswordParser.parse = orig_parse
         tfi.TrainerFileInput.read_password = orig_read
         rt.save_omen_rules_to_disk = orig_save_omen
